@@ -367,38 +367,64 @@ theorem removeDuplicates_no_ub (names : List (Option Bytes)) (len : Nat) (u : UB
   · intro h; cases h
   · simp
 
+theorem storeFuncName_inv (n : Nat) (names : List (Option Bytes)) (h : names.length = n) (idx : Nat) (nm : Bytes) :
+    OkInv (fun ns : List (Option Bytes) => ns.length = n) (storeFuncName names idx nm) := by
+  unfold storeFuncName
+  refine ok_ite (fun _ => ok_pure ?_) (fun _ => ok_undefined _)
+  simp [h]
+
 theorem funcNameEntry_inv (fc n : Nat) (names : List (Option Bytes)) (h : names.length = n) :
     OkInv (fun ns : List (Option Bytes) => ns.length = n) (funcNameEntry fc names) := by
   unfold funcNameEntry
-  refine ok_bind fun idx => ok_ite (fun _ => ok_fail _) fun _ => ok_bind fun nm => ?_
-  refine ok_ite (fun _ => ok_pure ?_) (fun _ => ok_undefined _)
-  simp [h]
+  refine ok_ite (fun _ => ?_) (fun _ => ?_)
+  · unfold funcNameEntrySkip
+    exact ok_bind fun idx => ok_bind fun nm => ok_ite (fun _ => ok_pure h) fun _ => storeFuncName_inv n names h idx nm
+  · unfold funcNameEntryReject
+    exact ok_bind fun idx => ok_ite (fun _ => ok_fail _) fun _ => ok_bind fun nm => storeFuncName_inv n names h idx nm
+
+theorem storeFuncName_ub {S : UB → Prop} (names : List (Option Bytes)) (idx : Nat) (nm : Bytes) (h : idx < names.length) :
+    UBOnly S (storeFuncName names idx nm) := by
+  unfold storeFuncName
+  exact ub_ite (fun _ => ub_pure _) fun h3 => absurd h h3
 
 theorem funcNameEntry_ub {S : UB → Prop} (fc : Nat) (names : List (Option Bytes)) (h : fc ≤ names.length) :
     UBOnly S (funcNameEntry fc names) := by
   unfold funcNameEntry
-  refine ub_bind (ub_u32 _) fun idx => ub_ite (fun _ => ub_fail _) fun h1 => ub_bind (ub_name _) fun nm => ?_
-  refine ub_ite (fun _ => ub_pure _) fun h3 => ?_
-  exact absurd (show idx < names.length by omega) h3
+  refine ub_ite (fun _ => ?_) (fun _ => ?_)
+  · unfold funcNameEntrySkip
+    refine ub_bind (ub_u32 _) fun idx => ub_bind (ub_name _) fun nm => ub_ite (fun _ => ub_pure _) fun h1 => ?_
+    exact storeFuncName_ub names idx nm (by omega)
+  · unfold funcNameEntryReject
+    refine ub_bind (ub_u32 _) fun idx => ub_ite (fun _ => ub_fail _) fun h1 => ub_bind (ub_name _) fun nm => ?_
+    exact storeFuncName_ub names idx nm (by omega)
+
+/-- whenever the name table can be used, it covers every function known so far -/
+theorem grownNames_length (m : RawModule) (fc : Nat) (names0 : List (Option Bytes)) (h : grownNames m fc = some names0) :
+    fc ≤ names0.length := by
+  unfold grownNames at h
+  split at h
+  · split at h
+    · cases h; simp; omega
+    · split at h
+      · cases h
+      · cases h; simp
+  · cases h; omega
 
 theorem ub_functionNamesSubsection (cfg : Cfg) (hd : cfg.debug = true) (m : RawModule) :
     UBOnly (Allowed cfg) (functionNamesSubsection m) := by
   unfold functionNamesSubsection
-  refine ub_bind (ub_u32 _) fun n => ub_ite (fun _ => ub_undefined _ (Or.inr ⟨hd, rfl⟩)) fun hc => ?_
-  have hlen : (m.funcImports.length + m.functions.length) % u32Max ≤
-      (if m.funcNames.length < (m.funcImports.length + m.functions.length) % u32Max
-        then List.replicate ((m.funcImports.length + m.functions.length) % u32Max) (none : Option Bytes)
-        else m.funcNames).length := by
-    split
-    · simp
-    · omega
-  refine ub_bind ?_ fun names => ?_
-  · exact ub_iter (I := fun ns : List (Option Bytes) => ns.length = _)
-      (fun s hs => funcNameEntry_inv _ _ s hs) (fun s hs => funcNameEntry_ub _ s (by rw [hs]; exact hlen)) n _ rfl
-  · split
-    · exact ub_pure _
-    · exact ub_fail _
-    · rename_i u hu; exact absurd hu (removeDuplicates_no_ub _ _ u)
+  refine ub_bind (ub_u32 _) fun n => ?_
+  split
+  · exact ub_undefined _ (Or.inr ⟨hd, rfl⟩)
+  · rename_i names0 hg
+    have hlen := grownNames_length m _ names0 hg
+    refine ub_bind ?_ fun names => ?_
+    · exact ub_iter (I := fun ns : List (Option Bytes) => ns.length = names0.length)
+        (fun s hs => funcNameEntry_inv _ _ s hs) (fun s hs => funcNameEntry_ub _ s (by rw [hs]; exact hlen)) n _ rfl
+    · split
+      · exact ub_pure _
+      · exact ub_fail _
+      · rename_i u hu; exact absurd hu (removeDuplicates_no_ub _ _ u)
 
 theorem ub_nameSectionLoop (cfg : Cfg) (hd : cfg.debug = true) (endRem : Int) :
     ∀ fuel m, UBOnly (Allowed cfg) (nameSectionLoop endRem fuel m) := by
